@@ -74,7 +74,7 @@ RULE = ("2-4 threads calling create_dir_all on path pairs/triples of depth 1-4 t
         "calling create_dir_all through the async API on AsyncMemoryFS, altroot and overlay (after removals of a directory, of a "
         "FILE, of two siblings), interleaved at trait-call granularity by a cooperative scheduler (a gate before every trait "
         "call of every instance), all schedules with at most 2 preemptions, same oracle (no model replay: the interleaved "
-        "semantics is the sync one)")
+        "semantics is the sync one); AsyncPhysicalFS: free-running OS threads each driving its create_dir_all task, 300 / 5000 rounds")
 ASSUMPTIONS = ["PhysicalFS: atomicity of mkdir(2) and EEXIST are the kernel's; the interleavings are sampled, not enumerated",
                "no concurrent removals and no files in the way (the property's precondition); a removal BEFORE the threads start is part of the explored setups"]
 BUILDS = [False]
@@ -110,6 +110,13 @@ ACFGS = {
 
 def gen_async_progs(tier):
     progs = []
+    # AsyncPhysicalFS (real I/O through the runtime's thread pool): free-running OS threads, each driving its task
+    rounds = 300 if tier == "quick" else 5000
+    for i, paths in enumerate([["a/b/c", "a/b/c", "a/b", "a"], ["x/y", "x/z", "x/y/w", "x"]]):
+        threads = [["createdirall " + vfx.ps(0, q)] for q in paths]
+        p = conclib.Prog("c17aphys%d" % i, ["base phys", "fs base 0"], [], threads, "stress %d" % rounds)
+        p.paths, p.cname = paths, "aphys"
+        progs.append(p)
     for cname, (cfg, target, setup) in ACFGS.items():
         if cname == "aovlrm2":
             sets = [["p/a", "p/b"], ["p/a/x", "p/b/deep/er"]]
